@@ -13,56 +13,98 @@ import json
 from ekw import c10_real as R
 
 PROPERTY = "C10"
-LEVEL_TEXT = ("Lean theorems over Model/Lower.lean (fluent Node constructor, node2task, graph2job, param_source) and Model/Runner.lean "
-              "(argument assembly, output binding with strict-zip semantics, Memory.handle/provide, is_last_output_of): for every serialised "
-              "graph one task per node and one positional edge per argument naming an input; the callable receives exactly the declared args with "
-              "every input placeholder replaced by the upstream value and the declared kwargs; the k-th yielded value is stored under the k-th "
-              "declared output for every number N >= 2 of outputs (also the fluent names '0'..'N-1', N > 10); a yield-count mismatch is an error; "
-              "the output whose publication the controller takes as completion is the last one published. Unbounded in arity, number of nodes "
-              "and number of outputs; tied to the real code by a node-by-node / task-by-task correspondence check.")
+LEVEL_TEXT = ("Lean theorems over Model/Lower.lean (fluent Node constructor, node2task, graph2job, param_source), Model/Runner.lean "
+              "(argument assembly, output binding with strict-zip semantics, the stateful Memory with local/bufs/shared memory, "
+              "execute_sequence over several tasks, is_last_output_of) and, for the coordinate step, Model/Fluent.lean (withYields): "
+              "for every serialised graph one task per node and one positional edge per argument naming an input (c10_tasks_edges); the "
+              "callable receives exactly the declared args with every argument naming an input replaced by the upstream value and the "
+              "declared kwargs (c10_binding; statics unchanged is its corollary c10_statics_unchanged); the k-th yielded value is stored "
+              "under the k-th declared output for every N >= 2 (c10_yield_binding_partial/_fluent) and therefore sits at the k-th "
+              "declared coordinate of the yields dimension (c10_yield_coordinate, linking the two models through fluentOutputs); with one "
+              "declared output the returned object itself - scalar, str, list, array - is the value (c10_single_output_value); a "
+              "yield-count mismatch is an error (c10_count_mismatch_partial), a generator raising after m values binds and publishes "
+              "exactly the first min(m, N) outputs and fails (c10_partial_publication); for EVERY run, failing ones included, the "
+              "notices are a prefix of the declaration and the completion output goes out last (c10_published_prefix, "
+              "c10_completion_after_all); execute_sequence over any history of the worker's memory runs every task against what its "
+              "predecessors in the sequence handled, published or not (c10_sequence_sees_local, c10_seq_unpublished_visible), never "
+              "hits the corruption branch (c10_mem_never_corrupted), reports exactly the first failure (c10_seq_failure_reported) and "
+              "flush keeps only what shared memory backs (c10_flush_keeps_published). Unbounded in arity, nodes, outputs, sequence "
+              "length; tied to the real code by a node-by-node / sequence-by-sequence / task-by-task correspondence check. Carried by "
+              "the tie only: that the payload at index i of an array given to Action.map reaches the node at index i (oracle "
+              "'wrong-callable'), and the contents of pickled values.")
 LEVEL_NOTE = ("modelled, not verified: low/into.py node2task+graph2job, low/views.py param_source, runner/runner.py run, runner/memory.py "
-              "handle/provide, controller/notify.py is_last_output_of, fluent.Node.__init__ (argument completion and output naming); shared memory "
-              "and the zmq callback are replaced by in-process fakes; cloudpickle/pydantic are exercised but trusted. Known finding: a generator "
-              "declared with ONE output is stored as the generator object (c10_yield_binding_partial needs N >= 2)")
-TECHNIQUE = "Lean 4 proof (induction over argument lists / output lists) + differential correspondence with the real graph2job and runner"
-LEAN_PROPS = ["EkwVerif.Props.C10"]
+              "handle/provide/flush/pop, runner/entrypoint.py execute_sequence, controller/notify.py is_last_output_of, fluent.Node.__init__ "
+              "(argument completion and output naming), fluent.Action.__init__ (yields dimension); shared memory and the zmq callback are "
+              "replaced by in-process fakes; cloudpickle/pydantic are exercised but trusted. Known finding: a generator declared with ONE "
+              "output is stored as the generator object (c10_yield_binding_partial needs N >= 2). The payload format cannot express a static "
+              "string equal to an input name (c10_string_naming_input_is_reference); not a finding, the property's 'arguments that name "
+              "other nodes' outputs'")
+TECHNIQUE = ("Lean 4 proof (induction over argument lists / output lists / task sequences, memory invariant over operation histories) + "
+             "differential correspondence with the real graph2job, execute_sequence and runner")
+LEAN_PROPS = ["EkwVerif.Props.C10", "EkwVerif.Props.C10Seq", "EkwVerif.Props.C10Coord"]
 LEAN_DRIVERS = ["C10"]
-RULE = ("random graphs of 1-7 nodes built by hand (graph.Node), through fluent.Node (30% of the later nodes are built from the very "
-        "Payload object of an earlier node, with another - often smaller - number of inputs), through a fluent program "
-        "(from_source(yields=...).map; or 1-2 dimensional sources followed by 1-4 map / reduce steps that share 1-3 payloads given as "
-        "Payload object, plain callable or functools.partial, with explicit placeholders; every run contains the batched reductions "
-        "with EVERY batch size 2..size+1 over EVERY size 2..9, i.e. multiples, remainders and singleton batches; the callables of these "
-        "programs return a value naming everything they received, so a stray or missing argument shows in every descendant) "
-        "or directly as JobInstance: arity 0-6 with upstream/static positions mixed, 0-3 kwargs, input names inputN or arbitrary, the same "
-        "parent output used by several inputs / several nodes / nobody, duplicated and missing placeholders, 1-14 outputs with numeric, "
-        "unsorted or multi-letter names, generators yielding N-2..N+2 values, list/scalar/raising callables, keyword and positional edges "
-        "with gaps, unpublished outputs. non-trivial = case with >= 1 upstream argument or >= 1 multi-output task; distinct by content hash")
+RULE = ("random graphs of 1-7 nodes built by hand (graph.Node; 30% of the later nodes carry the very callable OBJECT of an earlier node, "
+        "mostly with as many outputs under other names / in another order; 2.5% non-tuple or absent payloads), through fluent.Node (30% of "
+        "the later nodes are built from the very Payload object of an earlier node, with another - often smaller - number of inputs), "
+        "through a fluent program (from_source(yields=...) over 1-3 generator sources followed by map(array of payloads), the payload for "
+        "index (i, j) known to the oracle by its index only; or 1-2 dimensional sources followed by 1-4 map / reduce steps that share 1-3 "
+        "payloads given as Payload object, plain callable or functools.partial, with explicit placeholders; every run contains the batched "
+        "reductions with EVERY batch size 2..size+1 over EVERY size 2..9) or directly as JobInstance: arity 0-6 with upstream/static "
+        "positions mixed, 0-3 kwargs, statics int/str/None and (one in five) float/bool/list/tuple/dict/ndarray, strings equal to an input "
+        "name, input names inputN or arbitrary, the same parent output used by several inputs / several nodes / nobody, duplicated and "
+        "missing placeholders, 1-14 outputs with numeric, unsorted or multi-letter names, generators yielding N-2..N+2 values, generators "
+        "raising after 0..N+1 values, list/tuple/str/ndarray results (also for ONE output), scalar and raising callables, keyword and "
+        "positional edges with gaps. 55% of the cases are run as TaskSequences of 1-4 consecutive tasks with a random publish subset "
+        "(p = 0, .3, .5, 1), so that consumers read unpublished outputs of the same sequence from Memory.local; the Memory persists across "
+        "sequences (shared) or not (fresh). non-trivial = case with >= 1 upstream argument or >= 1 multi-output task; distinct by content hash")
 ASSUMPTIONS = [
     "shared memory (cascade.shm.client) and the zmq callback are replaced by in-process fakes; serde is the real one (cloudpickle)",
-    "each task is run as its own TaskSequence in topological order; values travel through the fake shared memory",
-    "static arguments are str/int/None; upstream values are opaque tokens",
+    "tasks run in topological order in TaskSequences of 1-4 tasks on one worker; between sequences values travel through the fake shared "
+    "memory (an unpublished output needed by a LATER sequence is 'withheld': the oracle has no opinion, the model is still compared)",
+    "upstream values are opaque tokens or the list/tuple/str/array a one-output task returned; pickled values are compared by a canonical text",
     "dict keys of node inputs, kwargs and output_schema are distinct (Python dicts); static_input_ps keys are decimal naturals",
-    "edges name existing outputs of existing tasks (RunnerContext.project would raise KeyError otherwise; not modelled)",
+    "edges name existing outputs of existing tasks (RunnerContext.project would raise KeyError otherwise; not modelled - seen as a disagreement)",
+    "'declared': a slot where the author placed an input receives that input's upstream value; a value the author wrote is received as "
+    "written, except that a string equal to one of the node's input names is, by the payload format (func, args, kwargs), the reference to "
+    "that input (generated and counted as static_string_equals_input_name); strings in kwargs are never references",
     "fluent programs (kind fprog): what a node declares is read off the graph the fluent calls produced (its inputs) and the payload "
     "the author wrote (its arguments, completed by the inputs not placed explicitly); an 'inputK' string with K >= number of inputs of "
     "the node is a string the author wrote, any other 'inputK' must arrive as the upstream value",
+    "a callable that returns a list/tuple/str/array of exactly N elements for N >= 2 declared outputs is not a generator: the runner may "
+    "fail it (it does: 'not an iterator', after binding and publishing all N); the oracle then only demands in-order binding and that a "
+    "completion notice comes last",
 ]
 
 
 # ----------------------------------------------------------------------------- generator
 
-STATIC_STR = ["x", "mean", "input7", "0", "10", "b"]
+STATIC_STR = ["x", "mean", "input7", "0", "10", "b", "a", "src", "input0", "input1"]
 PNAMES = ["a", "b", "c", "src", "left", "right", "q"]
 KWKEYS = ["k0", "k1", "alpha", "axis"]
 
 
 def _static(rng):
+    """a value the author wrote: int / str / None mostly; float, bool, list, tuple, dict, ndarray (the unhashable and the
+    element-wise comparing kinds) for about one in five"""
     r = rng.random()
-    if r < 0.45:
+    if r < 0.38:
         return {"i": rng.randint(-3, 40)}
-    if r < 0.85:
+    if r < 0.70:
         return {"s": rng.choice(STATIC_STR)}
-    return None
+    if r < 0.80:
+        return None
+    k = rng.choice(["f", "b", "l", "tu", "m", "nd", "nd"])
+    if k == "f":
+        return {"f": rng.choice([0.5, -1.25, 3.0])}
+    if k == "b":
+        return {"b": rng.random() < 0.5}
+    if k == "l":
+        return {"l": [rng.choice([1, 2, "x", "input0", "a"]) for _ in range(rng.randint(0, 3))]}
+    if k == "tu":
+        return {"tu": [rng.randint(0, 5) for _ in range(rng.randint(0, 3))]}
+    if k == "m":
+        return {"m": [[kk, rng.randint(0, 9)] for kk in rng.sample(["p", "q", "input0"], rng.randint(0, 2))]}
+    return {"nd": [rng.randint(0, 9) for _ in range(rng.choice([1, 2, 3]))]}
 
 
 def _outs(rng, hand):
@@ -76,6 +118,10 @@ def _outs(rng, hand):
         n = rng.randint(10, 14)
     if not hand:
         return [str(i) for i in range(n)]
+    return _out_names(rng, n)
+
+
+def _out_names(rng, n):
     style = rng.random()
     if style < 0.55:
         return [str(i) for i in range(n)]
@@ -92,17 +138,23 @@ def _outs(rng, hand):
 def _beh(rng, n):
     r = rng.random()
     if n == 1:
-        if r < 0.82:
+        if r < 0.66:
             return {"kind": "ret", "m": 1}
-        if r < 0.88:
+        if r < 0.72:
             return {"kind": "raise", "m": 0}
+        if r < 0.84:     # ONE declared output: whatever the callable returns is the value, also a list / tuple / str / array
+            return {"kind": rng.choice(["list", "list", "tuple", "str", "nd"]), "m": rng.choice([0, 1, 2, 3])}
+        if r < 0.87:
+            return {"kind": "genraise", "m": rng.choice([0, 1, 2])}
         return {"kind": "gen", "m": rng.choice([1, 1, 1, 0, 2])}
-    if r < 0.62:
+    if r < 0.52:
         return {"kind": "gen", "m": n}
-    if r < 0.88:
+    if r < 0.74:
         return {"kind": "gen", "m": max(0, n + rng.choice([-2, -1, -1, 1, 1, 2]))}
-    if r < 0.93:
-        return {"kind": "list", "m": n + rng.choice([0, 0, -1, 1])}
+    if r < 0.84:         # a generator that raises after m values: before, at and after the declared count
+        return {"kind": "genraise", "m": max(0, rng.choice([0, 1, n - 1, n - 1, n, n, n + 1, rng.randint(0, n)]))}
+    if r < 0.93:         # iterables that are not iterators
+        return {"kind": rng.choice(["list", "list", "tuple", "str", "nd"]), "m": max(0, n + rng.choice([0, 0, 0, -1, 1]))}
     if r < 0.97:
         return {"kind": "ret", "m": 1}
     return {"kind": "raise", "m": 0}
@@ -126,6 +178,19 @@ def gen_hand(rng):
     nodes, prev = [], []
     for i in range(n):
         outs = _outs(rng, True)
+        beh = _beh(rng, len(outs))
+        share = None
+        if nodes and rng.random() < 0.3:
+            # the very callable OBJECT of an earlier node (same kwarg names), mostly with as many outputs as that node
+            # declares but under other names / in another order
+            share = rng.randrange(len(nodes))
+            share = nodes[share].get("share", share) if nodes[share].get("share") is not None else share
+            beh = nodes[share]["beh"]
+            nprev = len(prev[share]) if prev[share] else 1
+            if rng.random() < 0.8:
+                outs = _out_names(rng, nprev)
+                if outs == prev[share] and nprev > 1:
+                    outs = list(reversed(outs))
         arity = rng.randint(0, 6)
         k = rng.randint(0, arity) if prev else 0
         refs = _pick_inputs(rng, prev, k)
@@ -138,23 +203,32 @@ def gen_hand(rng):
         slots = [None] * arity
         pos = rng.sample(range(arity), len(refs))
         for j, p in enumerate(pos):
-            slots[p] = {"s": pn[j]}
+            slots[p] = {"ph": pn[j]}
         args = [s if s is not None else _static(rng) for s in slots]
         r = rng.random()
         if refs and r < 0.12:                     # the same placeholder twice
-            args.insert(rng.randint(0, len(args)), {"s": rng.choice(pn)})
+            args.insert(rng.randint(0, len(args)), {"ph": rng.choice(pn)})
         elif refs and r < 0.16:                   # an input nobody mentions: lowering raises KeyError
             victim = rng.choice(pn)
-            args = [a for a in args if a != {"s": victim}]
-        kwargs = [[kk, _static(rng)] for kk in rng.sample(KWKEYS, rng.choice([0, 0, 1, 2, 3]))]
+            args = [a for a in args if a != {"ph": victim} and a != {"s": victim}]
+        elif refs and r < 0.22:                   # a string the author wrote that equals an input name
+            args.insert(rng.randint(0, len(args)), {"s": rng.choice(pn)})
+        if share is not None:
+            kwargs = [[kk, _static(rng)] for kk, _ in nodes[share]["kwargs"]]
+        else:
+            kwargs = [[kk, _static(rng)] for kk in rng.sample(KWKEYS, rng.choice([0, 0, 1, 2, 3]))]
         inputs = []
         for (pi, o), p in zip(refs, pn):
             inputs.append([p, pi, None if (o == "0" and rng.random() < 0.7) else o])
         outputs = outs
         if outs == ["0"] and rng.random() < 0.5:
             outputs = None if rng.random() < 0.7 else []
-        nodes.append({"name": "n%d" % i, "payload": "tuple" if rng.random() < 0.985 else "other", "args": args, "kwargs": kwargs,
-                      "inputs": inputs, "outputs": outputs, "beh": _beh(rng, len(outs))})
+        r = rng.random()
+        nd = {"name": "n%d" % i, "payload": "tuple" if r < 0.975 else ("other" if r < 0.9875 else "none"), "args": args, "kwargs": kwargs,
+              "inputs": inputs, "outputs": outputs, "beh": beh}
+        if share is not None:
+            nd["share"] = share
+        nodes.append(nd)
         prev.append([] if outputs == [] else outs)
     return {"kind": "hand", "nodes": nodes}
 
@@ -171,9 +245,9 @@ def gen_fluent(rng):
         # the author may place some placeholders explicitly; the constructor appends the others
         for j in range(len(refs)):
             if rng.random() < 0.45:
-                args.insert(rng.randint(0, len(args)), {"s": "input%d" % j})
+                args.insert(rng.randint(0, len(args)), {"ph": "input%d" % j})
         if refs and rng.random() < 0.1:
-            args.insert(rng.randint(0, len(args)), {"s": "input%d" % rng.randrange(len(refs))})
+            args.insert(rng.randint(0, len(args)), {"ph": "input%d" % rng.randrange(len(refs))})
         kwargs = [[kk, _static(rng)] for kk in rng.sample(KWKEYS, rng.choice([0, 0, 1, 2, 3]))]
         inputs = [[pi, None if (o == "0" and len(prev[pi]) == 1 and rng.random() < 0.7) else o] for pi, o in refs]
         nd = {"name": "n%d" % i, "args": args, "kwargs": kwargs, "inputs": inputs, "num_outputs": len(outs),
@@ -203,7 +277,12 @@ def _payload(rng, arity_hint):
     args = [_static(rng) for _ in range(rng.choice([0, 0, 0, 1, 2]))]
     if rng.random() < 0.35:
         for j in rng.sample(range(arity_hint), rng.randint(1, min(2, arity_hint))):
-            args.insert(rng.randint(0, len(args)), {"s": "input%d" % j})
+            args.insert(rng.randint(0, len(args)), {"ph": "input%d" % j})
+    # a string the author wrote that equals a placeholder placed in the same payload would name that input twice (the
+    # program-level expectation "every source exactly once" is about programs without that collision; the collision
+    # itself is generated for hand-written and fluent nodes)
+    placed = {a["ph"] for a in args if isinstance(a, dict) and "ph" in a}
+    args = [a for a in args if not (isinstance(a, dict) and a.get("s") in placed)]
     kwargs = [[kk, _static(rng)] for kk in rng.sample(KWKEYS, rng.choice([0, 0, 0, 1, 2]))]
     return {"wrap": wrap, "args": args, "kwargs": kwargs}
 
@@ -253,7 +332,7 @@ def gen_prog(rng):
     coords = rng.sample(range(0, 60), n)
     if rng.random() < 0.4:
         coords.sort()
-    s = rng.randint(1, 2)
+    s = rng.randint(1, 3)
     ms = [n if rng.random() < 0.7 else max(0, n + rng.choice([-2, -1, 1, 2])) for _ in range(s)]
     return {"kind": "prog", "srcs": s, "coords": coords, "m": ms}
 
@@ -285,28 +364,58 @@ def gen_case(rng):
     r = rng.random()
     if r < 0.34:
         c = gen_hand(rng)
-    elif r < 0.64:
+    elif r < 0.60:
         c = gen_fluent(rng)
-    elif r < 0.74:
+    elif r < 0.72:
         c = gen_prog(rng)
-    elif r < 0.82:
+    elif r < 0.80:
         c = gen_fprog(rng)
     else:
         c = gen_job(rng)
     c["mode"] = "fresh" if rng.random() < 0.5 else "shared"
     c["nopub"] = []
-    if rng.random() < 0.08:
+    r = rng.random()
+    if r < 0.55:
+        # several tasks per TaskSequence (consecutive in topological order), with its own publish subset: an unpublished
+        # output is read by a later task of the same sequence from Memory.local
+        c["seq_seed"] = rng.randint(0, 10 ** 6)
+        c["nopub_seed"] = rng.randint(0, 10 ** 6)
+        c["nopub_p"] = rng.choice([0.0, 0.3, 0.5, 0.5, 1.0])
+    elif r < 0.63:
         c["nopub_seed"] = rng.randint(0, 10 ** 6)
     return c
 
 
 # ----------------------------------------------------------------------------- run on the real code
 
+def _sequences(case, order):
+    """partition of the topological order into TaskSequences (consecutive chunks of 1-4 tasks)"""
+    import random
+    if "seqs" in case:          # explicit chunk sizes (corpus witnesses); the rest one by one
+        out, i = [], 0
+        for k in list(case["seqs"]) + [1] * len(order):
+            if i >= len(order):
+                break
+            out.append(order[i:i + k])
+            i += k
+        return out
+    if "seq_seed" not in case:
+        return [[t] for t in order]
+    prng = random.Random(case["seq_seed"])
+    out, i = [], 0
+    while i < len(order):
+        k = prng.choice([1, 2, 2, 3, 4])
+        out.append(order[i:i + k])
+        i += k
+    return out
+
+
 def run_real(case):
-    """-> dict(built, lower (canonical job | {"error"}), runs: name -> result, fluent: [...])"""
+    """-> dict(built, lower (canonical job | {"error"}), seqs: [sequence result], runs: name -> result of that task,
+    seq_of: name -> index of its sequence, is_last)"""
     import random
     built = R.build(case)
-    out = {"built": built, "runs": {}, "lower": None, "is_last": {}}
+    out = {"built": built, "runs": {}, "seqs": [], "seq_of": {}, "lower": None, "is_last": {}, "memops": []}
     if built["job"] is None:
         out["lower"] = {"error": built["lower_error"]}
         return out
@@ -316,27 +425,42 @@ def run_real(case):
     except Exception as e:
         out["lower"] = {"error": "other:" + type(e).__name__}
         return out
-    spec = built["spec"]
     prng = random.Random(case["nopub_seed"]) if "nopub_seed" in case else None
+    nopub_p = case.get("nopub_p", 0.3)
+    order = [t for t in built["order"] if t in job.tasks]
     runner = R.Runner(job, case.get("mode", "fresh"))
     try:
-        for tid in built["order"]:
-            if tid not in job.tasks:
-                continue
-            outs = list(job.tasks[tid].definition.output_schema.keys())
-            publish = [o for o in outs if not (prng is not None and prng.random() < 0.3)]
-            avail = runner.available()
-            key = spec[tid]["key"] if tid in spec else tid
-            res = runner.run_task(tid, key, publish)
-            res["avail"] = avail
-            res["publish"] = publish
-            res["stored"] = {}
-            for o in outs:
-                v = runner.stored(tid, o)
-                if v is not R._MISSING:
-                    res["stored"][o] = R.enc(v)
-            out["runs"][tid] = res
-            out["is_last"][tid] = [[o, R.is_last_real(job, tid, o)] for o in outs]
+        mprng = random.Random(case["seq_seed"] + 1) if "seq_seed" in case else None
+        for si, tids in enumerate(_sequences(case, order)):
+            if si and mprng is not None and case.get("mode") == "shared" and mprng.random() < 0.4:
+                # between two sequences the worker's loop handles a DatasetPurge (pop) or a DatasetPublished (provide)
+                snap = runner.snapshot()
+                kind = mprng.choice(["pop", "provide"])
+                cand = (snap["loc"] + snap["shm"]) if kind == "pop" or mprng.random() < 0.8 else [[t, "nope", None] for t in order[:1]]
+                if cand:
+                    t, o, _ = mprng.choice(cand)
+                    out["memops"].append((si, runner.memop(kind, t, o)))
+            publish = []
+            for tid in tids:
+                for o in job.tasks[tid].definition.output_schema.keys():
+                    if case.get("nopub") == "all" or [tid, o] in (case.get("nopub") or []):
+                        continue
+                    if not (prng is not None and prng.random() < nopub_p):
+                        publish.append([tid, o])
+            sq = runner.run_seq(tids, publish)
+            out["seqs"].append(sq)
+            for tid in tids:
+                outs = list(job.tasks[tid].definition.output_schema.keys())
+                res = sq["tasks"][tid]
+                res["publish"] = [o for t, o in publish if t == tid]
+                res["stored"] = {}
+                for o in outs:
+                    v = runner.stored(tid, o)
+                    if v is not R._MISSING:
+                        res["stored"][o] = R.enc(v)
+                out["runs"][tid] = res
+                out["seq_of"][tid] = si
+                out["is_last"][tid] = [[o, R.is_last_real(job, tid, o)] for o in outs]
     finally:
         runner.close()
     return out
@@ -344,23 +468,42 @@ def run_real(case):
 
 # ----------------------------------------------------------------------------- oracle (from the property text)
 
-def _status(spec, order, runs):
+ITERABLES = ("list", "tuple", "str", "nd")
+
+
+def _status(spec, order, real):
+    """what the property says about each task: "ok" (must succeed), "fail" (a task failure must be reported), "iter" (N >= 2
+    outputs, the callable returns a list / tuple / str / array of exactly N elements: not a generator, the runner may
+    refuse it, but whatever it stores must be bound in order), "skip" (no opinion)"""
+    runs, seq_of = real["runs"], real["seq_of"]
     st = {}
     for name in order:
         sp = spec[name]
         beh, n = sp["beh"], len(sp["outs"])
         ups = [a for a in list(sp["args"]) + list(sp["kwargs"].values()) if a[0] == "up"]
-        unpublished = any(a[1] in runs and spec[a[1]]["outs"][_out_index(spec, a[1], a[2])] not in runs[a[1]]["publish"] for a in ups)
-        if not sp["wellformed"] or unpublished or any(st.get(p) != "ok" for p in sp["parents"]):
-            st[name] = "skip"     # ill-formed, or the harness withheld an input: the property has no opinion
-        elif beh["kind"] == "raise":
-            st[name] = "fail"
+        withheld = False
+        for a in ups:
+            p = a[1]
+            if p not in runs:
+                continue
+            same_seq_earlier = seq_of.get(p) == seq_of.get(name) and order.index(p) < order.index(name)
+            published = spec[p]["outs"][_out_index(spec, p, a[2])] in runs[p]["publish"]
+            if not (same_seq_earlier or published):
+                withheld = True      # the harness kept the value on another "worker": no opinion
+        if name in runs and not runs[name]["started"]:
+            st[name] = "skip"        # never started (execute_sequence stopped at an earlier task of its sequence; checked in oracle())
+        elif not sp["wellformed"] or withheld or any(st.get(p) != "ok" for p in sp["parents"]):
+            st[name] = "skip"
+        elif beh["kind"] in ("raise", "genraise"):
+            st[name] = "fail"        # (one declared output + generator: the known single-output class, see _check_task)
         elif beh["kind"] == "gen":
             st[name] = "ok" if beh["m"] == n else "fail"
         elif beh["kind"] == "ret":
             st[name] = "ok" if n == 1 else "fail"     # one value for N >= 2 declared outputs: count mismatch
+        elif n == 1:
+            st[name] = "ok"          # ONE declared output: the returned object, whatever it is, is the value
         else:
-            st[name] = "skip"                        # list results: the property speaks about generators
+            st[name] = "iter" if beh["m"] == n else "fail"
     return st
 
 
@@ -375,9 +518,13 @@ def _expected(spec, ref):
     if ref[0] == "static":
         return R.enc(ref[1])
     _, parent, out = ref
-    if "vals" in spec[parent]:
-        return R.enc(spec[parent]["vals"][_out_index(spec, parent, out)])
-    return R.enc(R.tok(spec[parent]["key"], _out_index(spec, parent, out)))
+    k = _out_index(spec, parent, out)
+    sp = spec[parent]
+    if "vals" in sp:
+        return R.enc(sp["vals"][k])
+    if len(sp["outs"]) == 1 and sp["beh"]["kind"] in ITERABLES:
+        return R.enc(R.result_of(sp["key"], sp["beh"]["kind"], sp["beh"]["m"]))
+    return R.enc(R.tok(sp["key"], k))
 
 
 def oracle(case, real):
@@ -389,6 +536,10 @@ def oracle(case, real):
     wf = all(sp["wellformed"] for sp in spec.values())
     if case["kind"] == "fprog" and (built["lower_error"] or "").startswith("program:"):
         return [({"kind": "program-not-built"}, "the fluent calls of the program raised %s" % built["lower_error"][8:])]
+    if (built["lower_error"] or "").startswith("construct:"):
+        cf = built.get("construct_failed") or {}
+        return [({"kind": "node-construction-failed"}, "fluent.Node(Payload(f, args=%s), %d input(s)) raised %s"
+                 % (cf.get("args"), cf.get("n_inputs", 0), built["lower_error"][10:]))]
     if lowering and wf:
         if built["job"] is None:
             return [({"kind": "lowering-failed"}, "graph2job raised %s on a well-formed graph" % built["lower_error"])]
@@ -398,6 +549,12 @@ def oracle(case, real):
         got_tasks = sorted(t["name"] for t in low["tasks"])
         if got_tasks != sorted(spec.keys()):
             fails.append(({"kind": "lowering-tasks"}, "tasks %s for nodes %s" % (got_tasks, sorted(spec.keys()))))
+        for t in low["tasks"]:
+            sp = spec.get(t["name"])
+            if sp is not None and t["out_schema"] != list(dict.fromkeys(sp["outs"])):
+                fails.append(({"kind": "lowering-outputs"}, "task %s has outputs %s, its node declares %s"
+                              % (t["name"], t["out_schema"], sp["outs"])))
+                break
         want_edges = []
         for name, sp in spec.items():
             for i, a in enumerate(sp["args"]):
@@ -407,13 +564,24 @@ def oracle(case, real):
             fails.append(({"kind": "lowering-edges"}, "edges %s, declared inputs need %s" % (low["edges"], want_edges)))
     if built["job"] is None or "error" in (real["lower"] or {}):
         return fails
-    st = _status(spec, order, real["runs"])
+    st = _status(spec, order, real)
     bad = set()      # tasks that already violated: what their consumers see is a consequence, report the root only
+    seq_failed = {}  # sequence index -> an earlier task of it ended with an error (later ones are not started)
     for name in order:
         run = real["runs"].get(name)
         sp = spec[name]
+        si = real["seq_of"].get(name)
+        earlier_failed = seq_failed.get(si, False)
+        if run is not None and run["error"] is not None:
+            seq_failed[si] = True
         if any(p in bad for p in sp["parents"]):
             bad.add(name)
+            continue
+        if run is not None and not run["started"] and not earlier_failed and run["error"] is None:
+            # execute_sequence stops at the first failing task and starts nothing after it; otherwise every task runs
+            bad.add(name)
+            fails.append(({"kind": "task-not-started"}, "task %s of sequence %s was never started although no earlier task of the "
+                          "sequence failed" % (name, real["seqs"][si]["tids"])))
             continue
         if run is None or st[name] == "skip":
             continue
@@ -421,6 +589,11 @@ def oracle(case, real):
         if mine:
             bad.add(name)
             fails += mine
+    for sq in real["seqs"]:
+        errs = [t for t in sq["tids"] if sq["tasks"][t]["error"] is not None]
+        if sq["nfailures"] > 1 or (sq["failed"] is None) != (not errs):
+            fails.append(({"kind": "sequence-failure-report"}, "sequence %s: %d TaskFailure messages, failed=%s, tasks with an error %s"
+                          % (sq["tids"], sq["nfailures"], sq["failed"], errs)))
     if not fails:
         fails += _check_finals(built, real, st)
     return fails
@@ -442,18 +615,51 @@ def _check_finals(built, real, st):
     return fails
 
 
+def _check_bound(name, sp, run, cls):
+    """every value found under a published output (in shared memory) or handed to Memory.handle is the one yielded at the
+    position at which that output was declared -- also in runs that end in a failure"""
+    ys = R.yielded(sp["key"], sp["beh"]["kind"], sp["beh"]["m"]) or []
+    want = {sp["outs"][k]: R.enc(ys[k]) for k in range(min(len(ys), len(sp["outs"])))}
+    for o, v in run["stored"].items():
+        if want.get(o) != v:
+            return [({"kind": "yield-binding", "class": cls}, "task %s: declared outputs %s; output %s holds %s; k-th yielded value under "
+                     "k-th declared output would be %s" % (name, sp["outs"], o, v, want))]
+    for o, v, _ in run["handled"]:
+        if want.get(o) != v:
+            return [({"kind": "yield-binding", "class": cls}, "task %s: declared outputs %s; %s stored locally under %s; k-th yielded value "
+                     "under k-th declared output would be %s" % (name, sp["outs"], v, o, want))]
+    return []
+
+
 def _check_task(name, sp, run, status, spec):
     fails = []
     n = len(sp["outs"])
-    gen1 = sp["beh"]["kind"] == "gen" and n == 1
+    kind = sp["beh"]["kind"]
+    gen1 = kind in ("gen", "genraise") and n == 1
     if status == "fail":
         if run["error"] is None:
-            kind = "count-mismatch-not-reported" if sp["beh"]["kind"] in ("gen", "ret") else "failure-not-reported"
-            sig = {"kind": kind}
-            if kind == "count-mismatch-not-reported":
-                sig["class"] = "single-output-generator" if gen1 else ("fewer" if sp["beh"]["m"] < n else "more")
+            k2 = "count-mismatch-not-reported" if kind in ("gen", "ret") + ITERABLES else "failure-not-reported"
+            sig = {"kind": k2}
+            if gen1:
+                sig["class"] = "single-output-generator"
+            elif k2 == "count-mismatch-not-reported":
+                sig["class"] = "fewer" if sp["beh"]["m"] < n else "more"
             fails.append((sig, "task %s declared %d outputs %s, callable %s: no task failure reported (stored %s)"
                           % (name, n, sp["outs"], sp["beh"], run["stored"])))
+        elif n >= 2 and kind in ("gen", "genraise") + ITERABLES:
+            fails += _check_bound(name, sp, run, "partial")
+        return fails
+    if status == "iter":
+        # not a generator: failing it is the runner's business, but what it binds it must bind in order, and a completion
+        # notice may only go out after every other output
+        fails += _check_bound(name, sp, run, "iterable")
+        if run["error"] is None and set(run["publish"]) == set(sp["outs"]) and len(run["events"]) != n:
+            fails.append(({"kind": "completion-not-last"}, "task %s succeeded with publications %s" % (name, run["events"])))
+        comp = run["completion"]
+        if True in comp and (comp.count(True) != 1 or comp[-1] is not True or
+                             [e[1] for e in run["events"]] != [o for o in sp["outs"] if o in run["publish"]]):
+            fails.append(({"kind": "completion-not-last"}, "task %s: publications %s, completion rule fires at %s"
+                          % (name, [e[1] for e in run["events"]], comp)))
         return fails
     # status ok: declaration and behaviour agree, every input was made available
     want_args = [_expected(spec, a) for a in sp["args"]]
@@ -461,6 +667,8 @@ def _check_task(name, sp, run, status, spec):
     rec = run["received"]
     if rec is None or rec["calls"] != 1:
         fails.append(({"kind": "not-invoked-once"}, "task %s: callable invoked %s times, error %s" % (name, rec and rec["calls"], run["error"])))
+    elif rec["key"] != sp["key"]:
+        fails.append(({"kind": "wrong-callable"}, "task %s ran the callable %s; the author gave it %s" % (name, rec["key"], sp["key"])))
     elif rec["args"] != want_args or rec["kwargs"] != want_kwargs:
         fails.append(({"kind": "args-binding"}, "task %s received args %s kwargs %s; declared arguments with upstream values substituted are %s %s"
                       % (name, rec["args"], rec["kwargs"], want_args, want_kwargs)))
@@ -476,12 +684,19 @@ def _check_task(name, sp, run, status, spec):
         if fails:
             return fails     # the value of such a callable names what it received: already reported
         want = {sp["outs"][k]: R.enc(sp["vals"][k]) for k in range(n)}
-    elif sp["beh"]["kind"] == "gen":
+    elif kind == "gen":
         want = {sp["outs"][k]: R.enc(R.tok(sp["key"], k)) for k in range(n)}
+    elif kind in ITERABLES:
+        want = {sp["outs"][0]: R.enc(R.result_of(sp["key"], kind, sp["beh"]["m"]))}
     else:
         want = {sp["outs"][0]: R.enc(R.tok(sp["key"], 0))}
+    local = {o: v for o, v, _ in run["handled"]}
+    if local != want:
+        sig = {"kind": "yield-binding", "class": "single-output-generator" if gen1 else ("single" if n == 1 else "multi")}
+        fails.append((sig, "task %s: declared outputs %s; stored locally %s; k-th yielded value under k-th declared output would be %s"
+                      % (name, sp["outs"], local, want)))
     want = {o: v for o, v in want.items() if o in run["publish"]}
-    if run["stored"] != want:
+    if run["stored"] != want and not fails:
         sig = {"kind": "yield-binding", "class": "single-output-generator" if gen1 else ("single" if n == 1 else "multi")}
         fails.append((sig, "task %s: declared outputs %s; stored %s; k-th yielded value under k-th declared output would be %s"
                       % (name, sp["outs"], run["stored"], want)))
@@ -499,6 +714,8 @@ def model_lines(case, real):
     """JSON lines for the Lean driver and the matching expected (real) outputs."""
     lines, expect, where = [], [], []
     built = real["built"]
+    if built["ser"] is None and built["job"] is None:
+        return lines, expect, where
     for fn in built["fluent_nodes"]:
         lines.append({"op": "fluent_node", "args": fn["args"], "n_inputs": fn["n_inputs"], "num_outputs": fn["num_outputs"]})
         ser = next(s for s in built["ser"] if s["name"] == fn["name"])
@@ -512,27 +729,72 @@ def model_lines(case, real):
     if low is None or "error" in low:
         return lines, expect, where
     spec = built["spec"]
-    for t in low["tasks"]:
-        run = real["runs"].get(t["name"])
-        if run is None:
-            continue
-        sp = spec[t["name"]]
-        lines.append({"op": "run", "tid": t["name"], "ps": t["ps"], "kw": t["kw"], "outs": t["out_schema"], "edges": low["edges"],
-                      "mem": run["avail"], "publish": run["publish"], "result": R.result_json(sp["key"], sp["beh"], sp.get("vals"))})
-        rec = run["received"]
-        expect.append({"received": None if rec is None else {"args": rec["args"], "kwargs": rec["kwargs"]},
-                       "handled": run["handled"], "error": run["error"], "completion": run["completion"]})
-        where.append("runner.run")
-        lines.append({"op": "is_last", "outs": t["out_schema"]})
-        expect.append({"is_last": real["is_last"][t["name"]]})
-        where.append("is_last_output_of")
+    tasks = {t["name"]: t for t in low["tasks"]}
+
+    def result_of(name):
+        sp = spec[name]
+        return R.result_json(sp["key"], sp["beh"], sp.get("vals"))
+
+    memops = {}
+    for si, mo in real.get("memops") or []:
+        memops.setdefault(si, []).append(mo)
+    def edges_for(tids):
+        # the edges into these tasks (param_source only looks at those), plus every malformed edge (a TypeError wherever it sinks)
+        return [e for e in low["edges"] if e[2] in tids or (e[3] is None) == (e[4] is None)]
+
+    for si, sq in enumerate(real["seqs"]):
+        for mo in memops.get(si, []):
+            lines.append({"op": "memop", "kind": mo["kind"], "ds": mo["ds"], "loc": mo["before"]["loc"], "bufs": mo["before"]["bufs"],
+                          "shm": mo["before"]["shm"]})
+            expect.append({"result": mo["result"], "loc": mo["after"]["loc"], "bufs": mo["after"]["bufs"], "shm": mo["after"]["shm"]})
+            where.append("Memory." + mo["kind"])
+        # the whole TaskSequence against the stateful Memory model
+        lines.append({"op": "seq", "edges": edges_for(sq["tids"]), "publish": sq["publish"], "loc": sq["before"]["loc"], "bufs": sq["before"]["bufs"],
+                      "shm": sq["before"]["shm"],
+                      "tasks": [{"tid": t, "ps": tasks[t]["ps"], "kw": tasks[t]["kw"], "outs": tasks[t]["out_schema"], "result": result_of(t)}
+                                for t in sq["tids"]]})
+        runs = []
+        for t in sq["tids"]:
+            run = sq["tasks"][t]
+            if not run["started"]:
+                continue
+            rec = run["received"]
+            runs.append({"tid": t, "out": {"received": None if rec is None else {"args": rec["args"], "kwargs": rec["kwargs"]},
+                                           "handled": run["handled"], "error": run["error"], "published": [e[1] for e in run["events"]]}})
+        expect.append({"runs": runs, "failed": sq["failed"], "loc": sq["after"]["loc"], "bufs": sq["after"]["bufs"], "shm": sq["after"]["shm"]})
+        where.append("execute_sequence")
+        # every started task against the memory-free `run` of the theorems
+        for t in sq["tids"]:
+            run = sq["tasks"][t]
+            if not run["started"]:
+                continue
+            es = edges_for([t])
+            srcs = {(e[0], e[1]) for e in es}
+            lines.append({"op": "run", "tid": t, "ps": tasks[t]["ps"], "kw": tasks[t]["kw"], "outs": tasks[t]["out_schema"], "edges": es,
+                          "mem": [a for a in run["avail"] if (a[0], a[1]) in srcs], "publish": run["publish"], "result": result_of(t)})
+            rec = run["received"]
+            expect.append({"received": None if rec is None else {"args": rec["args"], "kwargs": rec["kwargs"]},
+                           "handled": run["handled"], "error": run["error"], "completion": run["completion"]})
+            where.append("runner.run")
+            lines.append({"op": "is_last", "outs": tasks[t]["out_schema"]})
+            expect.append({"is_last": real["is_last"][t]})
+            where.append("is_last_output_of")
     return lines, expect, where
+
+
+def _canon_recv(r):
+    if isinstance(r, dict):
+        return {"args": r["args"], "kwargs": sorted(r["kwargs"])}
+    return r
 
 
 def _canon_model(o):
     if isinstance(o, dict) and isinstance(o.get("received"), dict):
         o = dict(o)
-        o["received"] = {"args": o["received"]["args"], "kwargs": sorted(o["received"]["kwargs"])}
+        o["received"] = _canon_recv(o["received"])
+    if isinstance(o, dict) and "runs" in o:
+        o = dict(o)
+        o["runs"] = [{"tid": r["tid"], "out": dict(r["out"], received=_canon_recv(r["out"]["received"]))} for r in o["runs"]]
     return o
 
 
@@ -547,7 +809,12 @@ def _restrict(case, keep):
         c["tasks"] = [case["tasks"][i] for i in keep]
         c["edges"] = [[idx[s], o, idx[d], ps, kw] for s, o, d, ps, kw in case["edges"] if s in idx and d in idx]
     elif case["kind"] == "hand":
-        c["nodes"] = [dict(case["nodes"][i], inputs=[[p, idx[pi], o] for p, pi, o in case["nodes"][i]["inputs"]]) for i in keep]
+        c["nodes"] = []
+        for i in keep:
+            nd = dict(case["nodes"][i], inputs=[[p, idx[pi], o] for p, pi, o in case["nodes"][i]["inputs"]])
+            if nd.get("share") is not None:
+                nd["share"] = idx[nd["share"]]
+            c["nodes"].append(nd)
     elif case["kind"] == "fluent":
         c["nodes"] = []
         for i in keep:
@@ -562,7 +829,8 @@ def _parents(case, i):
     if case["kind"] == "job":
         return {s for s, o, d, ps, kw in case["edges"] if d == i}
     if case["kind"] == "hand":
-        return {pi for p, pi, o in case["nodes"][i]["inputs"]}
+        nd = case["nodes"][i]
+        return {pi for p, pi, o in nd["inputs"]} | ({nd["share"]} if nd.get("share") is not None else set())
     if case["kind"] == "fluent":
         nd = case["nodes"][i]
         return {pi for pi, o in nd["inputs"]} | ({nd["reuse"]} if nd.get("reuse") is not None else set())
@@ -598,17 +866,21 @@ def _fprog_smaller(case):
 
 def _isolate(case, i):
     """node i alone, its inputs (and the arguments naming them) removed"""
-    c = {k: v for k, v in case.items() if k != "nopub_seed"}
+    c = {k: v for k, v in case.items() if k not in ("nopub_seed", "seq_seed", "nopub_p", "seqs", "nopub")}
+    c["nopub"] = []
     if case["kind"] == "job":
         c["tasks"], c["edges"] = [case["tasks"][i]], []
     elif case["kind"] == "hand":
         nd = case["nodes"][i]
         names = [p for p, pi, o in nd["inputs"]]
-        c["nodes"] = [dict(nd, inputs=[], args=[a for a in nd["args"] if not (isinstance(a, dict) and a.get("s") in names)])]
+        c["nodes"] = [dict(nd, inputs=[], args=[a for a in nd["args"]
+                                                if not (isinstance(a, dict) and (a.get("s") in names or a.get("ph") in names))])]
+        c["nodes"][0].pop("share", None)
     else:
         nd = case["nodes"][i]
         names = ["input%d" % j for j in range(len(nd["inputs"]))]
-        c["nodes"] = [dict(nd, inputs=[], args=[a for a in nd["args"] if not (isinstance(a, dict) and a.get("s") in names)])]
+        c["nodes"] = [dict(nd, inputs=[], args=[a for a in nd["args"]
+                                                if not (isinstance(a, dict) and (a.get("s") in names or a.get("ph") in names))])]
         c["nodes"][0].pop("reuse", None)
     return c
 
@@ -677,18 +949,31 @@ def _nontrivial(case):
     return any(n["inputs"] or n["num_outputs"] > 1 for n in case["nodes"])
 
 
+def _static_kind(a):
+    v = a[1]
+    if v is None:
+        return "none"
+    return type(v).__name__
+
+
 def _count(ctx, case, real):
     ctx.count("cases")
     ctx.count("kind:" + case["kind"])
     built = real["built"]
     if built["lower_error"]:
         ctx.count("lower_error:" + built["lower_error"])
+    if built.get("static_string_equals_input_name"):
+        ctx.count("static_string_equals_input_name", built["static_string_equals_input_name"])
+    by_key = {}
     for name, sp in built["spec"].items():
         n = len(sp["outs"])
         ctx.count("tasks")
         ctx.count("outputs:" + ("1" if n == 1 else "2-10" if n <= 10 else "11-14"))
         ctx.count("arity:%d" % min(len(sp["args"]), 7))
         ups = [a for a in sp["args"] if a[0] == "up"]
+        for a in list(sp["args"]) + list(sp["kwargs"].values()):
+            if a[0] == "static":
+                ctx.count("static:" + _static_kind(a))
         if ups:
             ctx.count("tasks_with_upstream_args")
         if len({(a[1], a[2]) for a in ups}) < len(ups):
@@ -698,13 +983,35 @@ def _count(ctx, case, real):
         if sp["kwargs"]:
             ctx.count("tasks_with_kwargs")
         beh = sp["beh"]
-        if beh["kind"] == "gen" and n > 1:
+        if beh["kind"] in ("gen", "genraise") and n > 1:
             d = beh["m"] - n
-            ctx.count("gen_yield_delta:%+d" % d)
+            ctx.count("%s_yield_delta:%+d" % (beh["kind"], max(-3, min(3, d))))
         else:
             ctx.count("beh:%s%s" % (beh["kind"], "-multi" if n > 1 else ""))
+        if case["kind"] == "hand":
+            by_key.setdefault(sp["key"], []).append(sp["outs"])
+    for outs in by_key.values():
+        if len(outs) > 1:
+            ctx.count("hand_callable_shared")
+            if any(len(a) == len(b) and a != b and len(a) > 1 for a in outs for b in outs):
+                ctx.count("hand_callable_shared_same_count_other_output_names")
     for run in real["runs"].values():
         ctx.count("run_error:%s" % run["error"])
+        if not run["started"]:
+            ctx.count("task_not_started_after_failure_in_sequence")
+    spec = built["spec"]
+    for si, mo in real.get("memops") or []:
+        ctx.count("memory_op_between_sequences:%s:%s" % (mo["kind"], "error" if isinstance(mo["result"], str) else "ok"))
+    for sq in real["seqs"]:
+        ctx.count("sequence_size:%d" % len(sq["tids"]))
+        pub = {(t, o) for t, o in sq["publish"]}
+        for t in sq["tids"]:
+            if not sq["tasks"][t]["started"] or t not in spec:
+                continue
+            for a in list(spec[t]["args"]) + list(spec[t]["kwargs"].values()):
+                if a[0] == "up" and a[1] in sq["tids"] and a[1] in spec:
+                    o = spec[a[1]]["outs"][_out_index(spec, a[1], a[2])]
+                    ctx.count("intra_sequence_read:" + ("published" if (a[1], o) in pub else "UNPUBLISHED_from_local"))
     if case["kind"] == "fprog":
         left = {d: n for d, n in zip("xy", case["dims"])}
         for stp in case["steps"]:
@@ -805,8 +1112,10 @@ def replay(payload):
     real = run_real(case)
     print("case:", json.dumps(case))
     print("lowered:", json.dumps(real["lower"]))
+    for sq in real["seqs"]:
+        print("sequence", sq["tids"], "publish", sq["publish"], "failed", sq["failed"], "memory after", sq["after"])
     for name, run in real["runs"].items():
-        print("task", name, "received", run["received"], "stored", run["stored"], "error", run["error"],
+        print("task", name, "started", run["started"], "received", run["received"], "handled", run["handled"], "stored", run["stored"], "error", run["error"],
               "published", [e[1] for e in run["events"]], "completion", run["completion"])
     fails = oracle(case, real)
     for sig, what in fails:
